@@ -100,8 +100,13 @@ CLAIMS["C01"] = {
   "technique": "contract-based deductive verification: bit-vector codec proofs + per-append site obligations with loop invariants (SMT)",
   "design_ref": "DESIGN.md section 4 C01",
 }
-NA = {k: PENDING for k in ["C02","C04"]}
+CLAIMS["C04"] = {
+  "text": "Proof, for all module graphs and all call depths, of the liveness-marking kernel of tree shaking: linker.markPartLiveForTreeShaking and markFileLiveForTreeShaking (mutually recursive; each is checked against the other's contract) never clear an IsLive flag (monotone frame: only Part.IsLive and LinkerFile.IsLive are written), mark the requested part/file, and each activation that newly marks a part marks every part in its Dependencies and its file (so by induction on the call tree the final live set is closed under part dependencies: a kept statement never references a part that was dropped); each activation that newly marks a JavaScript file marks every part that is not CanBeRemovedIfUnused, every part holding an import statement that must be kept for its side effects (internal target with HasSideEffects or IgnoreDCEAnnotations; external target not flagged side-effect free), and the target file of every such import. Quantified loop invariants for all three loops; SMT, unbounded.",
+  "note": "NOT covered: the purity classification itself (StmtsCanBeRemovedIfUnused / ExprCanBeRemovedIfUnused decide CanBeRemovedIfUnused - a statement about JavaScript semantics, no Go-level contract states it), how Dependencies are computed from symbol uses, shouldRemoveImportExportStmt/convertStmtsForChunk, entry-point seeding in treeShakingAndCodeSplitting, sideEffects parsing in the resolver. Assumed as preconditions (data-structure invariants established elsewhere, unchecked): part dependencies point into JavaScript files, fewer than 2^32 parts per file. Termination of the recursion is not proved. The closure is stated per activation; the global closure follows by induction over the call tree, which is argued in DESIGN.md, not machine-checked.",
+  "technique": "contract-based deductive verification: mutually recursive contracts with quantified loop invariants, WP-style VCs from go/ssa, SMT (z3/cvc5)",
+  "design_ref": "DESIGN.md section 4 C04 and 9.2",
+}
+NA = {k: PENDING for k in ["C02"]}
 NA["C02"] = "No contract within reach carries this property at present: import/export matching, wrapper selection, evaluation order and interop are statements about the semantics of the emitted JavaScript; the two Go-level kernels planned in DESIGN.md (data-URL round trip, symbol union-find with path compression) need a decode specification over strings and an inductive heap-shape argument that the generator does not support (only the bounds safety of the data-URL escaper is proved, and it is reported under C16)."
-NA["C04"] = "Purity classification (what may be removed) is a statement about JavaScript semantics; the reachability kernel (liveness marking closed under part dependencies) needs an inductive closure argument over the nested file/part graph that the generator does not support. Not claimed rather than checked by another technique."
 NA["C05"] = "Lowering correctness is equivalence between two JavaScript programs (native construct vs helper-call expansion; helpers are JS text in runtime.go); a Go-level contract can state an AST shape, not what the shape computes. The Go-level facts (a construct is lowered iff its feature bit is unsupported) are C14's gate obligations."
 NA["C13"] = "Output re-parses / is a fixed point of print∘parse / every valid program is accepted are relations over the whole lexer+parser+printer against the ECMAScript and CSS grammars; no function's postcondition states them short of a verified parser."
